@@ -79,26 +79,31 @@ pub fn c11_l2_export_frame() {
     let xc: [u8; 2] = kani::any();
     let xl = any_len(2);
     const L: usize = 5;
-    let mut e = [[0u8; L]; 6];
-    assert!(r0.export(&xc[..xl], &mut e[0]).is_ok());
-    assert!(r1.export(&xc[..xl], &mut e[1]).is_ok());
+    let mut e0 = [0u8; L];
+    let mut e1 = [0u8; L];
+    let mut e2 = [0u8; L];
+    let mut e3 = [0u8; L];
+    let mut e4 = [0u8; L];
+    let mut e5 = [0u8; L];
+    assert!(r0.export(&xc[..xl], &mut e0).is_ok());
+    assert!(r1.export(&xc[..xl], &mut e1).is_ok());
     let tag = AeadTag::<SpyAead16>::from_bytes(&[7u8; 16]).unwrap();
     let mut buf: [u8; 2] = kani::any();
     spy().dec_ok = false;
     assert!(r.open_in_place_detached(&mut buf, &[], &tag).is_err());
-    assert!(r.export(&xc[..xl], &mut e[2]).is_ok());
+    assert!(r.export(&xc[..xl], &mut e2).is_ok());
     spy().dec_ok = true;
     assert!(r.open_in_place_detached(&mut buf, &[], &tag).is_ok());
-    assert!(r.export(&xc[..xl], &mut e[3]).is_ok());
-    assert!(r.export(&xc[..xl], &mut e[4]).is_ok());
+    assert!(r.export(&xc[..xl], &mut e3).is_ok());
+    assert!(r.export(&xc[..xl], &mut e4).is_ok());
     spy().enc_ok = true;
     assert!(s.seal_in_place_detached(&mut buf, &[]).is_ok());
-    assert!(s.export(&xc[..xl], &mut e[5]).is_ok());
-    let mut k = 1;
-    while k < 6 {
-        assert!(e[k] == e[0]);
-        k += 1;
-    }
+    assert!(s.export(&xc[..xl], &mut e5).is_ok());
+    assert!(e1 == e0, "export depends on the counter state");
+    assert!(e2 == e0, "export changed by a rejected open");
+    assert!(e3 == e0, "export changed by an accepted open");
+    assert!(e4 == e0, "export not repeatable");
+    assert!(e5 == e0, "sender export differs / changed by a seal");
 }
 
 static mut BIG: [u8; 70000] = [0u8; 70000];
@@ -119,15 +124,32 @@ pub fn c11_l3_limit_ok_small() {
     kani::cover!(l == 40, "20 blocks");
 }
 
-//@h name=c11_l3_limit_ok_max tier=quick mode=func timeout=1800 desc="length limit, boundary: with Nh = 2 an export of exactly 255*Nh = 510 bytes (and of 509) SUCCEEDS - the largest legal length is not rejected" bounds="L = 509 and 510 (concrete; 255 HKDF blocks executed); unwind 258"
+//@h name=c11_l3_limit_ok_max_real tier=thorough mode=func timeout=5400 desc="length limit, boundary, through the REAL hkdf crate with Nh = 2: an export of exactly 255*Nh = 510 bytes (and of 509) SUCCEEDS" bounds="L = 509 and 510 (concrete; 255 HKDF blocks executed); unwind 258"
 #[kani::proof]
 #[kani::unwind(258)]
 #[kani::stub(zeroize::optimization_barrier, noop_barrier)]
-pub fn c11_l3_limit_ok_max() {
+pub fn c11_l3_limit_ok_max_real() {
     let ctx = const_ctx();
     let mut buf = [0u8; 510];
     assert!(ctx.export(&[], &mut buf[..509]).is_ok(), "509 bytes must succeed");
     assert!(ctx.export(&[], &mut buf[..510]).is_ok(), "export of exactly 255*Nh bytes must succeed");
+}
+
+//@h name=c11_l3_limit_ok_max tier=quick mode=func timeout=1800 desc="length limit, boundary (hkdf crate replaced by its functional model, Nh = 8): an export of exactly 255*Nh = 2040 bytes SUCCEEDS and one of 2041 bytes fails with KdfOutputTooLong - the largest legal length is not rejected by hpke's own pre-checks" bounds="L = 2040 and 2041 (concrete; 255 HKDF blocks executed by the stub layer); exporter secret symbolic; unwind 258"
+#[kani::proof]
+#[kani::unwind(258)]
+#[kani::stub(zeroize::optimization_barrier, noop_barrier)]
+#[kani::stub(hkdf::HkdfExtract::new, crate::fasthkdf::stub_extract_new)]
+#[kani::stub(hkdf::HkdfExtract::input_ikm, crate::fasthkdf::stub_input_ikm)]
+#[kani::stub(hkdf::HkdfExtract::finalize, crate::fasthkdf::stub_finalize)]
+#[kani::stub(hkdf::Hkdf::from_prk, crate::fasthkdf::stub_from_prk)]
+#[kani::stub(hkdf::Hkdf::expand_multi_info, crate::fasthkdf::stub_expand_multi_info)]
+pub fn c11_l3_limit_ok_max() {
+    let exp: [u8; 8] = kani::any();
+    let ctx = ctx_s_from_parts::<SpyAead16, LinKdf, M>(&[1u8; 16], &[2u8; 12], &exp, 0, false);
+    let buf = unsafe { &mut *core::ptr::addr_of_mut!(BIG) };
+    assert!(ctx.export(&[], &mut buf[..2040]).is_ok(), "export of exactly 255*Nh bytes must succeed");
+    assert!(matches!(ctx.export(&[], &mut buf[..2041]), Err(HpkeError::KdfOutputTooLong)));
 }
 
 //@h name=c11_l3_limit_err tier=quick mode=func timeout=1200 desc="length limit, failure half, Nh = 2: EVERY L in 511..=70000 fails with KdfOutputTooLong (includes the 2-byte length-prefix boundary 65535/65536); the HKDF block loop is never entered (its unwinding assertion at bound 20 is discharged as unreachable)" bounds="L symbolic in 511..=70000; unwind 20 with unwinding assertions"
